@@ -50,9 +50,9 @@ impl Oracle for C05 {
                         if is_proposal {
                             viols.push(("proposal-took-effect-by-itself", format!("n{node}: [{}] changed roster/data: members {:?} -> {:?}", pe.desc, pre.members.len(), post.members.len()), None));
                         } else if is_commit && !author_is_admin {
-                            // KF-C05-2: the author's own client applies its self_update although the
-                            // commit swept queued proposals of other members (see KF-C01-5)
-                            let known = if !self.guarded && pe.creator == node && pe.desc == "selfupdate" && !pre.pending_proposals.is_empty() { Some("KF-C05-2".to_string()) } else { None };
+                            // (was KF-C05-2, repaired by 6270f5f: a non-admin's self_update no longer
+                            // sweeps the proposal queue)
+                            let known: Option<String> = None;
                             viols.push(("roster-or-data-changed-by-non-admin-commit", format!("n{node}: [{}] by n{} (not an admin in the receiver's state) changed roster {} / data {}", pe.desc, pe.creator, roster_changed, data_changed), known));
                         } else if !is_commit {
                             viols.push(("roster-or-data-changed-by-a-non-commit", format!("n{node}: [{}]", pe.desc), None));
